@@ -137,6 +137,8 @@ def run_cmd(cmd, log_path, timeout, env=None):
 def sanitizer_signature(log_text):
     """Root-cause-ish signature from a sanitizer report: kind + first frame inside the repository."""
     kind = None
+    if "VERIF-HANG:" in log_text:
+        return "hang:watchdog"
     m = re.search(r"ERROR: AddressSanitizer: (\S+)", log_text)
     if m:
         kind = "asan:" + m.group(1)
